@@ -261,7 +261,10 @@ Two `netFD.Close` calls racing on the same value serialise: exactly one sees the
 `detaching` once, so every real interleaving of closers and the `Detach` writer equals one of the sequential
 orders generated here. -/
 def connEnd (ran : Bool) (c : NetFD) : M Unit :=
-  if ran then pure () else do let _ ← finalizer c; pure ()
+  if ran then pure () else do
+    if ← ask .conn_viaServer then visit .server_Close_conn     -- value.(Connection).Close()
+    let _ ← finalizer c
+    pure ()
 
 def connLoop : Nat → Bool → NetFD → M Unit
   | 0, ran, c => connEnd ran c
@@ -344,7 +347,10 @@ def Listener.closeOld (l : Listener) (rawTag : Nat) : M Listener := do
   l.close
 
 def lnEnd (close : Listener → M Listener) (ran : Bool) (l : Listener) : M Unit :=
-  if ran then pure () else do let _ ← close l; pure ()
+  if ran then pure () else do
+    if ← ask .ln_viaServer then visit .server_Close_ln                     -- s.ln.Close()
+    let _ ← close l
+    pure ()
 
 /-- `listener.Close` may be called any number of times (server.Close, the user's own deferred Close, ...);
 the listener counts as closed when it has been called at least once. -/
